@@ -2,7 +2,7 @@
    Statements only; proofs in Proofs/Gro*.v.  Same model as C13. *)
 From Coq Require Import List Ascii NArith ZArith Bool Arith Lia.
 From GM Require Import Base.Res Base.StrGro Gen.SrcConsts Model.GroCodec Model.GroFile
-  Proofs.GroStr Proofs.GroCodecP Proofs.GroReadP Proofs.GroWriteP Proofs.GroMain Proofs.GroPrefixP.
+  Proofs.GroStr Proofs.GroCodecP Proofs.GroReadP Proofs.GroWriteP Proofs.GroMain Proofs.GroPrefixP Proofs.GroFailClose.
 Import ListNotations.
 
 (* Crash points at operation granularity.  The operations of a run are
@@ -24,6 +24,21 @@ Theorem C14_crash_points : forall (c : wconf) (w d : nat) (vel : bool) (recs : l
        exists fj, file_after c (firstn j (write_ops recs)) = Ok fj /\ read_gro fj = Err EIO).
 Proof. exact crash_points. Qed.
 Print Assumptions C14_crash_points.
+
+(* "Part-way through closing" with a close() that FAILS: the count was announced as N, fewer than N
+   records were written (none included) and close() was reached.  [file_left c ops] = (bytes on disk in the
+   last good state, exception): close raises IOError in its count check, before any seek or write, and the
+   file it leaves is rejected by the reader (empty file, or the box seek lands beyond the end of the data).
+   More records than announced (k > N) is not covered by a theorem: the reader then takes record N as the box
+   line and rejects it unless that record consists of numeric tokens only (K and S cover it). *)
+Theorem C14_failing_close : forall (c : wconf) (w d : nat) (vel : bool) (recs : list grec) (N : Z),
+  wd_of c = (w, d) -> 1 <= d -> d + 4 <= w -> title_ok c -> box_ok (c_box c) ->
+  Forall (rec_ok w vel) recs ->
+  c_natoms c = Some N -> (Z.of_nat (length recs) < N)%Z ->
+  exists f, file_left c (write_ops recs) = Ok (f, Some EIO) /\
+    ((Z.of_nat (length f) + N * Z.of_nat (line_len w vel + 1) < SEEK_LIMIT)%Z -> read_gro f = Err EIO).
+Proof. exact failing_close. Qed.
+Print Assumptions C14_failing_close.
 
 (* [rejected r]: r = Err e with e <> EType, i.e. a definite exception of the reader (IOError,
    IndexError or ValueError), never the model's "text outside the modelled subset" verdict.
@@ -90,3 +105,21 @@ Example C14_nonvacuous_prefixes :
   | Err _ => False
   end.
 Proof. vm_compute. split; reflexivity. Qed.
+
+(* announced 3, wrote 2 (and 0): close fails with IOError and the file left is rejected; announced 3 and
+   wrote 3: close succeeds *)
+Example C14_nonvacuous_failing_close :
+  (forall k, In k [0; 1; 2] ->
+     match file_left (ex_conf true) (write_ops (firstn k [ex_rec 1; ex_rec 2; ex_rec 3])) with
+     | Ok (f, Some EIO) => is_ok (read_gro f) = false
+     | _ => False
+     end) /\
+  match file_left (ex_conf true) (write_ops [ex_rec 1; ex_rec 2; ex_rec 3]) with
+  | Ok (f, None) => is_ok (read_gro f) = true
+  | _ => False
+  end.
+Proof.
+  split.
+  - intros k [<-|[<-|[<-|[]]]]; vm_compute; reflexivity.
+  - vm_compute. reflexivity.
+Qed.
